@@ -1,3 +1,351 @@
+/-
+C37  Keystore encryption is a faithful, tamper-evident round trip.
+
+The glue of lib/keystore/encrypt.go + helpers.go (model: Gossamer/Model/C37.lean) is proved
+correct RELATIVE to two recorded assumptions about the AES-GCM / BLAKE2b oracles, packaged as
+`Ideal C L` for a log `L` of honest encryptions:
+  * correctness:  every honest ciphertext opens, under its key and nonce, to its message;
+  * authenticity: nothing else opens (INT-CTXT idealisation: a (key, nonce, ciphertext) triple
+    that opens is one of the honest ones).
+Hash collision freedom appears as the explicit hypothesis `C.kdf pw' ≠ C.kdf pw`.
+`C37_ideal_instance` shows the hypotheses are satisfiable for every log (the instance the
+correspondence driver runs).
+-/
 import Gossamer.Model.C37
 namespace Gossamer.C37
+open Gossamer
+
+/-- the two oracle assumptions, relative to the log of honest encryptions -/
+structure Ideal (C : Crypto) (L : List Enc) : Prop where
+  correct : ∀ e ∈ L, C.openAE e.k e.n (C.ct e) = some e.m
+  authentic : ∀ k n c m, C.openAE k n c = some m → ∃ e ∈ L, e.k = k ∧ e.n = n ∧ C.ct e = c
+
+/-! ### the hypotheses are satisfiable: the ideal-world instance of the driver -/
+
+theorem idealSeal_inj (n m m' : Bytes) (h : idealSeal n m = idealSeal n m') : m = m' := by
+  unfold idealSeal at h
+  exact List.append_cancel_right h
+
+theorem C37_ideal_instance (L : List Enc) : Ideal (idealCrypto L) L := by
+  constructor
+  · intro e he
+    simp only [idealCrypto, Crypto.ct]
+    cases hf : L.find? (fun e' => decide (e'.k = e.k ∧ e'.n = e.n ∧ idealSeal e'.n e'.m = idealSeal e.n e.m)) with
+    | none =>
+      have := List.find?_eq_none.mp hf e he
+      simp at this
+    | some e' =>
+      have hp := List.find?_some hf
+      simp only [decide_eq_true_eq] at hp
+      obtain ⟨_, hn, hs⟩ := hp
+      rw [hn] at hs
+      simp [idealSeal_inj _ _ _ hs]
+  · intro k n c m h
+    have h' : (match L.find? (fun e' => decide (e'.k = k ∧ e'.n = n ∧ idealSeal e'.n e'.m = c)) with
+        | some e => some e.m
+        | none => none) = some m := h
+    cases hf : L.find? (fun e' => decide (e'.k = k ∧ e'.n = n ∧ idealSeal e'.n e'.m = c)) with
+    | none => rw [hf] at h'; simp at h'
+    | some e' =>
+      have hp := List.find?_some hf
+      simp only [decide_eq_true_eq] at hp
+      exact ⟨e', List.mem_of_find?_eq_some hf, hp.1, hp.2.1, hp.2.2⟩
+
+/-! ### Decrypt -/
+
+/-- `Decrypt` never panics, whatever the oracles do (holds since the length guard was added). -/
+theorem C37_never_panics (C : Crypto) (data pw : Bytes) : decrypt C data pw ≠ .panic := by
+  unfold decrypt
+  split
+  · simp
+  · split <;> simp
+
+/-- before the repair `Decrypt` panicked on every input shorter than the nonce -/
+theorem C37_never_panics_before_fix_counterexample (C : Crypto) (data pw : Bytes)
+    (h : data.length < nonceSize) : decryptOld C data pw = .panic := by
+  simp [decryptOld, h]
+
+theorem decrypt_ok_inv {C : Crypto} {data pw m : Bytes} (h : decrypt C data pw = .ok m) :
+    nonceSize ≤ data.length ∧
+      C.openAE (C.kdf pw) (data.take nonceSize) (data.drop nonceSize) = some m := by
+  unfold decrypt at h
+  split at h
+  · simp at h
+  · next hl =>
+    refine ⟨Nat.le_of_not_lt hl, ?_⟩
+    split at h
+    · next m' hm => simp at h; rw [hm, h]
+    · simp at h
+
+/-- **Only honest blobs decrypt**: if `Decrypt` returns a plaintext at all, the input is byte for
+    byte the stored blob of an honest encryption under this password's key, and the plaintext is
+    that encryption's message (never a different one). -/
+theorem C37_decrypt_ok_only_honest {C : Crypto} {L : List Enc} (h : Ideal C L)
+    {data pw m : Bytes} (hd : decrypt C data pw = .ok m) :
+    ∃ e ∈ L, e.k = C.kdf pw ∧ data = C.blob e ∧ m = e.m := by
+  obtain ⟨_, ho⟩ := decrypt_ok_inv hd
+  obtain ⟨e, he, hk, hn, hc⟩ := h.authentic _ _ _ _ ho
+  refine ⟨e, he, hk, ?_, ?_⟩
+  · simp [Crypto.blob, hn, hc]
+  · have := h.correct e he
+    rw [hk, hn, hc, ho] at this
+    exact Option.some.inj this
+
+/-- **Round trip**: what `Encrypt(msg, pw)` returns, `Decrypt(·, pw)` maps back to `msg`. -/
+theorem C37_roundtrip {C : Crypto} {L : List Enc} (h : Ideal C L) (rnd msg pw : Bytes)
+    (hr : nonceSize ≤ rnd.length) (hm : (⟨C.kdf pw, rnd.take nonceSize, msg⟩ : Enc) ∈ L) :
+    ∃ data, encrypt C rnd msg pw = .ok data ∧ decrypt C data pw = .ok msg := by
+  have hlen : (rnd.take nonceSize).length = nonceSize := by simp [List.length_take]; omega
+  refine ⟨rnd.take nonceSize ++ C.sealAE (C.kdf pw) (rnd.take nonceSize) msg, ?_, ?_⟩
+  · simp [encrypt, Nat.not_lt.mpr hr]
+  · have hc := h.correct _ hm
+    simp only [Crypto.ct] at hc
+    unfold decrypt
+    have h1 : ¬ (rnd.take nonceSize ++ C.sealAE (C.kdf pw) (rnd.take nonceSize) msg).length < nonceSize := by
+      simp only [List.length_append, hlen]; omega
+    rw [if_neg h1, List.take_left' hlen, List.drop_left' hlen, hc]
+
+/-- **Tamper evidence (general form)**: any input that is not byte-identical to an honest blob
+    under this password's key is rejected with an error. -/
+theorem C37_tamper_errors {C : Crypto} {L : List Enc} (h : Ideal C L) (data pw : Bytes)
+    (hne : ∀ e ∈ L, e.k = C.kdf pw → C.blob e ≠ data) : decrypt C data pw = .err := by
+  cases hd : decrypt C data pw with
+  | err => rfl
+  | panic => exact absurd hd (C37_never_panics C data pw)
+  | ok m =>
+    obtain ⟨e, he, hk, hb, _⟩ := C37_decrypt_ok_only_honest h hd
+    exact absurd hb.symm (hne e he hk)
+
+/-- **Wrong password (general form)**: a password under whose key nothing was honestly encrypted
+    decrypts nothing at all. -/
+theorem C37_wrong_password_errors {C : Crypto} {L : List Enc} (h : Ideal C L) (data pw' : Bytes)
+    (hk : ∀ e ∈ L, e.k ≠ C.kdf pw') : decrypt C data pw' = .err :=
+  C37_tamper_errors h data pw' (fun e he hek => absurd hek (hk e he))
+
+/-! ### one stored key blob: the statement of the property -/
+
+section single
+variable {C : Crypto} {pw nonce msg : Bytes}
+
+/-- the log with the single honest encryption of `msg` under `pw` with `nonce` -/
+abbrev one (C : Crypto) (pw nonce msg : Bytes) : List Enc := [⟨C.kdf pw, nonce, msg⟩]
+
+/-- the stored blob -/
+abbrev stored (C : Crypto) (pw nonce msg : Bytes) : Bytes := nonce ++ C.sealAE (C.kdf pw) nonce msg
+
+/-- same password, untouched blob: the message comes back -/
+theorem C37_single_roundtrip (h : Ideal C (one C pw nonce msg)) (hn : nonce.length = nonceSize) :
+    decrypt C (stored C pw nonce msg) pw = .ok msg := by
+  have hc := h.correct ⟨C.kdf pw, nonce, msg⟩ (by simp)
+  simp only [Crypto.ct] at hc
+  unfold decrypt
+  have h1 : ¬ (stored C pw nonce msg).length < nonceSize := by
+    simp only [List.length_append, hn]; omega
+  rw [if_neg h1, List.take_left' hn, List.drop_left' hn, hc]
+
+/-- a different password (with a different derived key) on ANY input: error -/
+theorem C37_single_wrong_password_errors (h : Ideal C (one C pw nonce msg)) (data pw' : Bytes)
+    (hk : C.kdf pw' ≠ C.kdf pw) : decrypt C data pw' = .err :=
+  C37_wrong_password_errors h data pw' (by
+    intro e he; simp at he; subst he; exact fun hh => hk hh.symm)
+
+/-- **every modification** of the stored blob, under any password: error -/
+theorem C37_single_tamper_errors (h : Ideal C (one C pw nonce msg)) (data pw' : Bytes)
+    (hne : data ≠ stored C pw nonce msg) : decrypt C data pw' = .err :=
+  C37_tamper_errors h data pw' (by
+    intro e he _; simp at he; subst he; exact fun hh => hne hh.symm)
+
+/-- whatever is decrypted from whatever input with whatever password: it is `msg`, the input is
+    the stored blob and the password derives the same key — never a different plaintext -/
+theorem C37_single_never_different (h : Ideal C (one C pw nonce msg)) {data pw' m : Bytes}
+    (hd : decrypt C data pw' = .ok m) :
+    m = msg ∧ data = stored C pw nonce msg ∧ C.kdf pw' = C.kdf pw := by
+  obtain ⟨e, he, hk, hb, hm⟩ := C37_decrypt_ok_only_honest h hd
+  simp at he; subst he
+  exact ⟨hm, hb, hk.symm⟩
+
+/-- truncation to EVERY shorter length (0 included), any password: error -/
+theorem C37_truncation_errors (h : Ideal C (one C pw nonce msg)) (j : Nat) (pw' : Bytes)
+    (hj : j < (stored C pw nonce msg).length) :
+    decrypt C ((stored C pw nonce msg).take j) pw' = .err := by
+  apply C37_single_tamper_errors h
+  intro heq
+  have := congrArg List.length heq
+  simp only [List.length_take] at this
+  omega
+
+theorem xor_bit_ne (x : UInt8) (j : Nat) (hj : j < 8) : x ^^^ UInt8.ofNat (2 ^ j) ≠ x := by
+  intro h
+  have h2 : x ^^^ (x ^^^ UInt8.ofNat (2 ^ j)) = x ^^^ x := by rw [h]
+  rw [← UInt8.xor_assoc, UInt8.xor_self, UInt8.zero_xor] at h2
+  have : j = 0 ∨ j = 1 ∨ j = 2 ∨ j = 3 ∨ j = 4 ∨ j = 5 ∨ j = 6 ∨ j = 7 := by omega
+  rcases this with h | h | h | h | h | h | h | h <;> subst h <;> revert h2 <;> decide
+
+theorem flipBit_ne (b : Bytes) (i : Nat) (hi : i < 8 * b.length) : flipBit b i ≠ b := by
+  intro h
+  have hk : i / 8 < b.length := by omega
+  have h1 : (flipBit b i)[i / 8]? = b[i / 8]? := by rw [h]
+  unfold flipBit at h1
+  rw [List.getElem?_set_self hk, List.getElem?_eq_getElem hk] at h1
+  have h2 := Option.some.inj h1
+  have : b.getD (i / 8) 0 = b[i / 8] := by
+    simp [List.getD_eq_getElem?_getD, List.getElem?_eq_getElem hk]
+  rw [this] at h2
+  exact xor_bit_ne _ _ (Nat.mod_lt _ (by omega)) h2
+
+/-- EVERY single-bit flip anywhere in the blob (nonce, body or tag), any password: error -/
+theorem C37_bitflip_errors (h : Ideal C (one C pw nonce msg)) (i : Nat) (pw' : Bytes)
+    (hi : i < 8 * (stored C pw nonce msg).length) :
+    decrypt C (flipBit (stored C pw nonce msg) i) pw' = .err :=
+  C37_single_tamper_errors h _ pw' (flipBit_ne _ _ hi)
+
+/-- replacing the nonce by any other one: error -/
+theorem C37_nonce_change_errors (h : Ideal C (one C pw nonce msg)) (nonce' pw' : Bytes)
+    (hn : nonce' ≠ nonce) :
+    decrypt C (nonce' ++ C.sealAE (C.kdf pw) nonce msg) pw' = .err := by
+  apply C37_single_tamper_errors h
+  intro heq
+  exact hn (List.append_cancel_right heq)
+
+/-- every mutation the correspondence run applies, when it changes the blob at all: error -/
+theorem C37_mutation_errors (h : Ideal C (one C pw nonce msg)) (mu : Mut) (pw' : Bytes)
+    (hch : mu.apply (stored C pw nonce msg) ≠ stored C pw nonce msg) :
+    decrypt C (mu.apply (stored C pw nonce msg)) pw' = .err :=
+  C37_single_tamper_errors h _ pw' hch
+
+end single
+
+/-- two honest encryptions of the same message under the same password with different nonces:
+    exchanging the nonces makes both blobs undecryptable (given the two sealed bodies differ) -/
+theorem C37_nonce_swap_errors {C : Crypto} {pw n1 n2 msg : Bytes}
+    (h : Ideal C [⟨C.kdf pw, n1, msg⟩, ⟨C.kdf pw, n2, msg⟩]) (hn : n1 ≠ n2)
+    (hb : C.sealAE (C.kdf pw) n1 msg ≠ C.sealAE (C.kdf pw) n2 msg) (pw' : Bytes) :
+    decrypt C (n2 ++ C.sealAE (C.kdf pw) n1 msg) pw' = .err := by
+  apply C37_tamper_errors h
+  intro e he _ heq
+  simp at he
+  rcases he with he | he <;> subst he <;> simp only [Crypto.blob, Crypto.ct] at heq
+  · exact hn (List.append_cancel_right heq)
+  · exact hb (List.append_cancel_left heq).symm
+
+/-! ### private keys (`EncryptPrivateKey` / `DecryptPrivateKey` / `DecodePrivateKey`) -/
+
+theorem decode_name (pk : PrivKey) (hv : pk.valid) :
+    decodePrivateKey pk.bytes pk.scheme.name = .ok pk := by
+  obtain ⟨s, b⟩ := pk
+  unfold PrivKey.valid at hv
+  cases s <;> simp_all [decodePrivateKey, newPrivateKey, Scheme.name, Scheme.keyLen] <;> decide
+
+/-- whatever `DecodePrivateKey(b, name of s)` accepts is the key ⟨s, b⟩ -/
+theorem decode_name_inv (s : Scheme) (b : Bytes) (pk' : PrivKey)
+    (h : decodePrivateKey b s.name = .ok pk') : pk' = ⟨s, b⟩ := by
+  cases s <;> simp [decodePrivateKey, newPrivateKey, Scheme.name] at h <;> split at h <;>
+    first
+      | (injection h with h; exact h.symm)
+      | (exact absurd h (by simp))
+
+theorem C37_key_never_panics (C : Crypto) (data pw : Bytes) (kt : String) :
+    decryptPrivateKey C data pw kt ≠ .panic := by
+  unfold decryptPrivateKey
+  cases hd : decrypt C data pw with
+  | panic => exact absurd hd (C37_never_panics C data pw)
+  | err => simp
+  | ok m =>
+    simp only [decodePrivateKey, newPrivateKey]
+    repeat (split <;> try simp)
+
+/-- **Key round trip**, all three schemes, every password: the decrypted key is the stored key. -/
+theorem C37_key_roundtrip {C : Crypto} {L : List Enc} (h : Ideal C L) (rnd pw : Bytes) (pk : PrivKey)
+    (hv : pk.valid) (hr : nonceSize ≤ rnd.length)
+    (hm : (⟨C.kdf pw, rnd.take nonceSize, pk.bytes⟩ : Enc) ∈ L) :
+    ∃ data, encryptPrivateKey C rnd pk pw = .ok data ∧
+      decryptPrivateKey C data pw pk.scheme.name = .ok pk := by
+  obtain ⟨data, he, hd⟩ := C37_roundtrip h rnd pk.bytes pw hr hm
+  exact ⟨data, he, by simp [decryptPrivateKey, hd, decode_name pk hv]⟩
+
+/-- **Never a different key**: with one stored key blob, whatever input and whatever password
+    `DecryptPrivateKey` is given, if it returns a key at all then it is the stored key, the input is
+    the untouched blob and the password derives the same AES key. -/
+theorem C37_key_never_different {C : Crypto} {pw nonce : Bytes} {pk : PrivKey}
+    (h : Ideal C (one C pw nonce pk.bytes)) {data pw' : Bytes} {pk' : PrivKey}
+    (hd : decryptPrivateKey C data pw' pk.scheme.name = .ok pk') :
+    pk' = pk ∧ data = stored C pw nonce pk.bytes ∧ C.kdf pw' = C.kdf pw := by
+  unfold decryptPrivateKey at hd
+  cases hdd : decrypt C data pw' with
+  | err => simp [hdd] at hd
+  | panic => simp [hdd] at hd
+  | ok m =>
+    simp only [hdd] at hd
+    obtain ⟨hm, hb, hk⟩ := C37_single_never_different h hdd
+    subst hm
+    exact ⟨decode_name_inv _ _ _ hd, hb, hk⟩
+
+/-- wrong password or any modification of the blob ⇒ `DecryptPrivateKey` errors (any key type) -/
+theorem C37_key_tamper_or_wrong_password_errors {C : Crypto} {pw nonce : Bytes} {pk : PrivKey}
+    (h : Ideal C (one C pw nonce pk.bytes)) (data pw' : Bytes) (kt : String)
+    (hbad : data ≠ stored C pw nonce pk.bytes ∨ C.kdf pw' ≠ C.kdf pw) :
+    decryptPrivateKey C data pw' kt = .err := by
+  have : decrypt C data pw' = .err := by
+    rcases hbad with hb | hk
+    · exact C37_single_tamper_errors h data pw' hb
+    · exact C37_single_wrong_password_errors h data pw' hk
+  simp [decryptPrivateKey, this]
+
+/-! ### the JSON key file (`EncryptAndWriteToFile` / `ReadFromFileAndDecrypt`) -/
+
+theorem C37_file_never_panics (C : Crypto) (fs : FileState) (pw : Bytes) :
+    readFromFileAndDecrypt C fs pw ≠ .panic := by
+  cases fs with
+  | absent => simp [readFromFileAndDecrypt]
+  | garbled => simp [readFromFileAndDecrypt]
+  | parsed f => exact C37_key_never_panics C _ _ _
+
+theorem C37_file_roundtrip {C : Crypto} {L : List Enc} (h : Ideal C L) (rnd pw : Bytes) (pk : PrivKey)
+    (pub : String) (hv : pk.valid) (hr : nonceSize ≤ rnd.length)
+    (hm : (⟨C.kdf pw, rnd.take nonceSize, pk.bytes⟩ : Enc) ∈ L) :
+    ∃ f, encryptToFile C rnd pk pub pw = .ok f ∧
+      readFromFileAndDecrypt C (.parsed f) pw = .ok pk := by
+  obtain ⟨data, he, hd⟩ := C37_key_roundtrip h rnd pw pk hv hr hm
+  exact ⟨⟨pk.scheme.name, pub, data⟩, by simp [encryptToFile, he], by simpa [readFromFileAndDecrypt] using hd⟩
+
+/- Full statement wanted: ANY modification of the key file makes ReadFromFileAndDecrypt return an
+   error (or at least never a different key).  That is false for the code as it is: the Type field
+   is not authenticated (counterexample below).  Proved: it holds for every file whose Type field
+   is the written one — whatever happens to Ciphertext and PublicKey, and for a lost/garbled file. -/
+
+/-- a file with the original Type: any change of the Ciphertext field, or a wrong password ⇒ error -/
+theorem C37_file_tamper_errors_partial {C : Crypto} {pw nonce : Bytes} {pk : PrivKey}
+    (h : Ideal C (one C pw nonce pk.bytes)) (f' : KeyFile) (pw' : Bytes)
+    (hbad : f'.ciphertext ≠ stored C pw nonce pk.bytes ∨ C.kdf pw' ≠ C.kdf pw) :
+    readFromFileAndDecrypt C (.parsed f') pw' = .err := by
+  simpa [readFromFileAndDecrypt] using C37_key_tamper_or_wrong_password_errors h _ pw' f'.type hbad
+
+/-- a file with the original Type never yields a different key -/
+theorem C37_file_never_different_partial {C : Crypto} {pw nonce : Bytes} {pk : PrivKey}
+    (h : Ideal C (one C pw nonce pk.bytes)) (f' : KeyFile) (pw' : Bytes) (pk' : PrivKey)
+    (ht : f'.type = pk.scheme.name)
+    (hd : readFromFileAndDecrypt C (.parsed f') pw' = .ok pk') : pk' = pk := by
+  simp only [readFromFileAndDecrypt, ht] at hd
+  exact (C37_key_never_different h hd).1
+
+/-- the Type field is not covered by the authentication: the sr25519 key file of a 32-byte key,
+    with `Type` rewritten to "secp256k1" and nothing else touched, decrypts under the right password
+    to a DIFFERENT key (other scheme).  Shown in the ideal world, i.e. with perfect AEAD. -/
+theorem C37_file_tamper_errors_counterexample :
+    ∃ (C : Crypto) (pw nonce : Bytes) (pk pk' : PrivKey) (f : KeyFile),
+      Ideal C (one C pw nonce pk.bytes) ∧ pk.valid ∧
+      encryptToFile C nonce pk "pub" pw = .ok f ∧
+      readFromFileAndDecrypt C (.parsed { f with type := "secp256k1" }) pw = .ok pk' ∧ pk' ≠ pk := by
+  let pw : Bytes := [1]
+  let nonce : Bytes := List.replicate 12 7
+  let pk : PrivKey := ⟨.sr25519, List.replicate 32 9⟩
+  refine ⟨idealCrypto [⟨pw, nonce, pk.bytes⟩], pw, nonce, pk, ⟨.secp256k1, List.replicate 32 9⟩,
+    ⟨"sr25519", "pub", nonce ++ idealSeal nonce pk.bytes⟩, C37_ideal_instance _, by simp [PrivKey.valid, Scheme.keyLen, pk], by decide,
+    by decide, by decide⟩
+
+/-- the hypotheses of the single-blob theorems hold for a concrete non-trivial blob -/
+example : Ideal (idealCrypto [⟨[1], List.replicate 12 7, [1, 2, 3]⟩])
+    (one (idealCrypto [⟨[1], List.replicate 12 7, [1, 2, 3]⟩]) [1] (List.replicate 12 7) [1, 2, 3]) :=
+  C37_ideal_instance _
+
 end Gossamer.C37
